@@ -14,3 +14,10 @@ open Just.Props.C17
 #print axioms mem_sortByOffset
 #print axioms groups_listed_iff
 #print axioms groups_listed_once
+#print axioms own_before_imported
+#print axioms importer_before_imported
+#print axioms same_file_in_text_order
+#print axioms earlier_import_first
+#print axioms mem_unsortedOrder
+#print axioms length_insertPlaced
+#print axioms length_unsortedOrder
